@@ -22,12 +22,17 @@ TraceParseFlat ==
   /\ Log[l].ev = "parse_flat"
   /\ Log[l].tokens = Tokens(Parse(Log[l].genes))
 
+(* LONG genomes (beyond 2^14 genes): the one-pass definition, see Plushy!TokStream / StreamAgrees *)
+TraceParseLong ==
+  /\ Log[l].ev = "parse_long"
+  /\ Log[l].tokens = TokStream(Log[l].genes)
+
 (* Display of the genome, tokenised by the harness ("i" / "{" / "}") *)
 TraceRender ==
   /\ Log[l].ev = "render"
   /\ Log[l].tokens = Render(Log[l].genes)
 
-TraceNext == l <= Len(Log) /\ l' = l + 1 /\ (TraceParse \/ TraceParseFlat \/ TraceRender) /\ UNCHANGED smvars
+TraceNext == l <= Len(Log) /\ l' = l + 1 /\ (TraceParse \/ TraceParseFlat \/ TraceParseLong \/ TraceRender) /\ UNCHANGED smvars
 
 TraceSpec == TraceInit /\ [][TraceNext]_<<smvars, l>>
 
